@@ -1309,7 +1309,8 @@ HLPwrite(accrec_t *access_rec, int32 length, const void *datap)
         int32 access_id;  /* access record id */
         int32 remaining = /* remaining data length in this block */
             current_length - relative_posn;
-        uint16 new_ref = 0; /* ref of newly created block */
+        uint16 new_ref     = 0;     /* ref of newly created block */
+        intn   fresh_block = FALSE; /* whether this write creates the block's data */
 
         /* determine length and write this block */
         if (remaining > length)
@@ -1320,11 +1321,14 @@ HLPwrite(accrec_t *access_rec, int32 length, const void *datap)
             block_t *current_block = /* ptr to current block record */
                 &(t_link->block_list[block_idx]);
 
-            access_id = Hstartwrite(access_rec->file_id, DFTAG_LINKED, current_block->ref, current_length);
+            /* the ref may only be reserved (first block of a new element): no data yet */
+            fresh_block = (Hexist(access_rec->file_id, DFTAG_LINKED, current_block->ref) == FAIL);
+            access_id   = Hstartwrite(access_rec->file_id, DFTAG_LINKED, current_block->ref, current_length);
         }
         else { /* block is missing, set up a new block */
-            new_ref   = Htagnewref(access_rec->file_id, DFTAG_LINKED);
-            access_id = Hstartwrite(access_rec->file_id, DFTAG_LINKED, new_ref, current_length);
+            new_ref     = Htagnewref(access_rec->file_id, DFTAG_LINKED);
+            fresh_block = TRUE;
+            access_id   = Hstartwrite(access_rec->file_id, DFTAG_LINKED, new_ref, current_length);
         }
 
         if (access_id == (int32)FAIL)
@@ -1334,6 +1338,24 @@ HLPwrite(accrec_t *access_rec, int32 length, const void *datap)
             (int32)FAIL == (nbytes = Hwrite(access_id, remaining, data))) {
             Hendaccess(access_id); /* do not leave the block's AID attached to the file */
             HGOTO_ERROR(DFE_WRITEERROR, FAIL);
+        }
+
+        /* a block that was just created is described with its full length: write out its
+           tail as well, otherwise it ends beyond the end of the file and cannot be read */
+        if (fresh_block && relative_posn + remaining < current_length) {
+            int32  pad_len = current_length - (relative_posn + remaining);
+            uint8 *pad     = (uint8 *)calloc((size_t)pad_len, 1);
+
+            if (pad == NULL) {
+                Hendaccess(access_id);
+                HGOTO_ERROR(DFE_NOSPACE, FAIL);
+            }
+            if (Hwrite(access_id, pad_len, pad) == FAIL) {
+                free(pad);
+                Hendaccess(access_id);
+                HGOTO_ERROR(DFE_WRITEERROR, FAIL);
+            }
+            free(pad);
         }
         Hendaccess(access_id);
         bytes_written += nbytes;
